@@ -23,6 +23,25 @@ type Op struct {
 	Child  bool  `json:"child,omitempty"`
 	Fail   []int `json:"fail,omitempty"` // target selectors whose bodies fail during this build
 	Index  bool  `json:"index,omitempty"`
+	// Crash names a crash point: the build runs in a child process that dies at the CrashHit-th
+	// time (from 1) any target reaches it.
+	// Owner: T selects among the live targets that declare sources (as the src-* edits do), so that
+	// a build can be aimed at the target an edit touched.
+	Owner    bool   `json:"owner,omitempty"`
+	Crash    string `json:"crash,omitempty"`
+	CrashHit int    `json:"crashhit,omitempty"`
+}
+
+// CrashSites lists the crash points an interrupted build of a history may die at.
+var CrashSites = []string{"body.late", "save.afterRename", "body.mid", "eval.afterBody", "save.beforeRename", "eval.beforeBody",
+	"save.afterEncode", "eval.afterSave", "save.afterCreateTemp", "index.afterCreate", "index.afterEncode", "load.afterIndex"}
+
+// GenCrash turns a build op into an interrupted one.
+func GenCrash(t *rapid.T, op Op) Op {
+	op.Crash = rapid.SampledFrom(CrashSites).Draw(t, "crashsite")
+	op.CrashHit = rapid.IntRange(1, 6).Draw(t, "crashhit")
+	op.Dry, op.Fail, op.Child = false, nil, true
+	return op
 }
 
 // IsBuild reports whether the op is a build.
@@ -44,6 +63,16 @@ func pick(ids []int, sel int) int {
 		sel = -sel
 	}
 	return ids[sel%len(ids)]
+}
+
+// BuildTarget resolves the target selector of a build op (-1: nothing to build).
+func (m *Model) BuildTarget(op Op) int {
+	if op.Owner {
+		if id := pick(m.liveWhere(func(t *Target) bool { return len(t.Sources) > 0 }), op.T); id >= 0 {
+			return id
+		}
+	}
+	return pick(m.Live(), op.T)
 }
 
 func (m *Model) liveWhere(pred func(t *Target) bool) []int {
@@ -88,7 +117,7 @@ func (s *Sim) ApplyEdit(op Op) EditInfo {
 	info := EditInfo{Class: op.Kind}
 	all := m.Live()
 	switch op.Kind {
-	case "src-new", "src-same", "src-recreate", "src-revert", "src-rm":
+	case "src-new", "src-same", "src-recreate", "src-revert", "src-rm", "src-unreadable":
 		ids := m.liveWhere(func(t *Target) bool { return len(t.Sources) > 0 })
 		id := pick(ids, op.T)
 		if id < 0 {
@@ -109,6 +138,14 @@ func (s *Sim) ApplyEdit(op Op) EditInfo {
 			s.Touch(f, false)
 		case "src-recreate":
 			s.Touch(f, true)
+		case "src-unreadable":
+			// the source becomes unreadable (a self-referential symbolic link): checking whether it is
+			// up to date fails with an error that is not "does not exist"
+			if m.Files[f] == SymlinkLoop {
+				return info
+			}
+			m.Files[f] = SymlinkLoop
+			info.Semantic = true
 		case "src-rm":
 			// the source stays declared but its file is gone
 			if _, ok := m.Files[f]; !ok {
